@@ -1,6 +1,7 @@
 package checks
 
 import (
+	"encoding/json"
 	"fmt"
 	"math/big"
 	"strings"
@@ -356,6 +357,26 @@ func init() {
 					docs = append(docs, mk(v, false))
 				}
 				pcs = append(pcs, baseCase("c05-multiple-float", schema, docs, "number", string(pos), "multipleOf"))
+			}
+		}
+		// bounds of very large magnitude on NUMBER members (2^53 … 1e300, as integer text and in exponent form; upper,
+		// lower, inclusive, exclusive), documents far from the bound on either side: how the bound is printed into the
+		// Go source must not change its value
+		for _, bt := range []string{"9007199254740992", "4611686018427387904", "9223372036854775807", "9223372036854775808", "9.5e18", "9999999999999999999", "1e19", "18446744073709551615", "18446744073709551616", "1e20", "1e100", "1e300"} {
+			for _, neg := range []bool{false, true} {
+				for _, kw := range []string{"maximum", "minimum", "exclusiveMaximum", "exclusiveMinimum"} {
+					txt := bt
+					if neg {
+						txt = "-" + bt
+					}
+					node := sgen.M{"type": "number", kw: json.Number(txt)}
+					schema := sgen.M{"type": "object", "properties": sgen.M{"v": node}, "required": []any{"v"}}
+					var docs []any
+					for _, d := range []string{"0", "5", "-5", "1e10", "-1e10", "1.5", "1e305", "-1e305"} {
+						docs = append(docs, M{"v": json.Number(d)})
+					}
+					pcs = append(pcs, baseCase("c05-huge-bounds", schema, docs, "number", kw, txt))
+				}
 			}
 		}
 		for _, pc := range nearDupCases(c, "c05-near-duplicates") {
